@@ -474,7 +474,32 @@ pub fn run(ctx: &Ctx, rep: &mut Report) {
         stress(rep, n, ctx.seed.wrapping_add(r));
     }
     let (iters, runs) = ctx.tier.pick((60_000u32, 2u64), (1_000_000u32, 8u64));
+    // run many pairs at once (oversubscribing the cores makes preemption inside recv()/modify() likelier)
+    let pairs = 2 * ncpu() as u64;
     for r in 0..runs {
-        close_race(rep, iters, ctx.seed.wrapping_add(100 + r));
+        let reports: Vec<Report> = std::thread::scope(|sc| {
+            let hs: Vec<_> = (0..pairs)
+                .map(|p| {
+                    let seed = ctx.seed.wrapping_add(100 + r * 1000 + p);
+                    let tier = ctx.tier;
+                    sc.spawn(move || {
+                        let mut local = Report::new("C19", tier, seed);
+                        close_race(&mut local, iters, seed);
+                        local
+                    })
+                })
+                .collect();
+            hs.into_iter().map(|h| h.join().unwrap()).collect()
+        });
+        for local in reports {
+            if let Some(st) = local.subs.get("close_race") {
+                rep.sub("close_race").merge(st.clone());
+            }
+            for v in local.violations {
+                if !rep.violations.iter().any(|x| x.signature == v.signature) {
+                    rep.violations.push(v);
+                }
+            }
+        }
     }
 }
